@@ -1,1 +1,34 @@
 // Kani contract harnesses for /repo/parquet/src/column/writer/mod.rs (child module: sees private items via super::)
+use super::*;
+#[path = "/verif/kani/support/spec.rs"]
+mod spec;
+#[allow(unused_imports)]
+use spec::*;
+
+/// value of a big-endian two's-complement byte string of 1..=8 bytes (the DECIMAL BYTE_ARRAY layout)
+fn sext(b: &[u8]) -> i128 {
+    let mut v: i128 = if b[0] & 0x80 != 0 { -1 } else { 0 };
+    let mut i = 0;
+    while i < b.len() { v = (v << 8) | b[i] as i128; i += 1; }
+    v
+}
+
+// Contract (C07): compare_greater_byte_array_decimals(a, b) <=> sext(a) > sext(b), where sext is the value
+// of the big-endian two's-complement integer, for byte strings of DIFFERENT or equal lengths (min/max
+// statistics of BYTE_ARRAY / FIXED_LEN_BYTE_ARRAY decimal columns must bound every value). Empty strings:
+// a > b iff a is non-empty and b is empty (as coded: an empty value sorts lowest).
+// Finding F1 (fixed in /repo by a `fix:` commit): before the fix `(&[0x00,0x05], &[0x07])` returned true.
+// @unit name=decimals_compare_len4 props=C07 kind=bounded bound=each_value_1..=4_bytes fns=compare_greater_byte_array_decimals timeout=300
+#[kani::proof]
+#[kani::unwind(6)]
+fn decimals_compare_len4() {
+    let a: [u8; 4] = kani::any(); let b: [u8; 4] = kani::any();
+    let la: usize = kani::any(); let lb: usize = kani::any();
+    kani::assume(la >= 1 && la <= 4 && lb >= 1 && lb <= 4);
+    let r = compare_greater_byte_array_decimals(&a[..la], &b[..lb]);
+    assert!(r == (sext(&a[..la]) > sext(&b[..lb])));
+    kani::cover!(la > lb && r);
+    kani::cover!(la < lb && !r);
+    kani::cover!(la != lb && a[0] == 0 && b[0] == 0);
+    kani::cover!(la != lb && a[0] == 0xFF && b[0] == 0xFF);
+}
